@@ -15,23 +15,19 @@ META = {
 def jobs(tier):
     q = tier == "quick"
     out = []
-    olo, ohi = (0, 2) if q else (-2, 5)
+    olo, ohi = (0, 2) if q else (-1, 3)
     # which leaves keep their full range in the quick tier (the ones that interact with the overridden constants)
     WIDE = {"t_index": ["i"], "t_slice_let": ["b"], "t_regsize_let": ["i"], "t_loop_sub": ["c"], "t_shadow": ["i"],
             "t_alias_macro": ["i"], "t_macro_sub": [], "t_let_arg": ["v"], "t_float": []}
     for t in WITH_LETS:
         shrink = window(t, tier, 1, WIDE.get(t, ())) if q else None
-        for mask in ((1, 3) if q else (0, 1, 2, 3, 5, 7)):
+        for mask in ((1, 3) if q else (1, 2, 3, 7)):
             ep = [("o0", "int")] if mask else []
             pre = [f"{olo} <= o0 <= {ohi}"] if mask else []
             fx = {"pulses": True, "mask": mask, "fo": -1, "o1": 1}
             if not mask:
                 fx["o0"] = 0
-            if not q and mask:
-                ep.append(("o1", "int"))
-                pre.append(f"{olo} <= o1 <= {ohi}")
-                fx.pop("o1")
-            out.extend(tjobs(f"{H}:c05_letfill", t, tier, fixed=fx, extra_params=ep, extra_pre=pre, functions=FUNCS, timeout=400 if q else 2400, shrink=shrink,
+            out.extend(tjobs(f"{H}:c05_letfill", t, tier, fixed=fx, extra_params=ep, extra_pre=pre, functions=FUNCS, timeout=400 if q else 2400, shrink=shrink if q else window(t, tier, 2, WIDE.get(t, ())),
                              note=f"{t}: fill_in_let with overrides on constant subset mask={mask}; oracle: no Constant left in any position, "
                                   "impl_meaning(out, {}) == ref_meaning(program, overrides), declarations/macros/native gates/usepulses preserved"))
         # float override of the first constant
@@ -40,5 +36,5 @@ def jobs(tier):
         pure_numeric = t in ("t_let_arg", "t_float")      # the first constant is never an index/bound/count
         for fo in (((0, 2) if pure_numeric else (2,)) if q else ((0, 1, 2, 3, 4, 5) if pure_numeric else (2, 3, 8, 12))):
             out.extend(tjobs(f"{H}:c05_letfill", t, tier, fixed={"pulses": False, "mask": 1, "fo": fo, "o0": 0, "o1": 0}, functions=FUNCS, timeout=400 if q else 2400,
-                             shrink=window(t, tier, 1) if q else None, note=f"{t}: first constant overridden by float grid value #{fo}"))
+                             shrink=window(t, tier, 1), note=f"{t}: first constant overridden by float grid value #{fo}"))
     return out
